@@ -551,6 +551,31 @@ Definition flag_gexp (ch : list level) (c : path) (neg : bool) : gexp :=
   GMap (fun v => match v with PBool b => Ok (PBool (if neg then negb b else b)) | _ => Err OtherErr end)
        (chain_get ch (GPresent c)).
 
+(** (E) a value child that counts only while a sibling mode child reads [on] (manual layout of a chart
+    element: c:xMode + c:x below c:layout/c:manualLayout).  The setter validates the value first, get_or_adds
+    the chain, removes the box on [zero]; otherwise it get_or_adds the box and the mode child, ASSIGNS [on] TO
+    THE MODE ATTRIBUTE (a typed attribute: assigning its default deletes it), get_or_adds the value child and
+    assigns the value.  The getter reads [off] unless box, value child and mode child exist and the mode
+    attribute reads [on]; then it reads the value attribute. *)
+Definition mode_gate (on : pyval) (off : res pyval) (mode : pyval) : res pyval :=
+  if py_eqb mode on then Ok PNone else off.
+Definition moded_prog (ch : list level) (box m x : path) (zero : cond) (md : attr_decl) (on : pyval) (d : attr_decl) : prog :=
+  Seq (SCheck (ad_codec d) (ad_kind d))
+    (chain_prog ch
+       (If zero (Seq (SRemove box) Done)
+          (Seq (SEnsure box [])
+             (Seq (SEnsure m [])
+                (Seq (SWith (fun _ => Ok (plain on)) (SSetAttr m (ad_attr md) (ad_codec md) (ad_kind md)))
+                   (Seq (SEnsure x [])
+                      (Seq (SSetAttr x (ad_attr d) (ad_codec d) (ad_kind d)) Done))))))).
+Definition moded_gexp (ch : list level) (box m x : path) (off : res pyval) (md : attr_decl) (on : pyval) (d : attr_decl) : gexp :=
+  chain_get ch
+    (GIfAbsent box (GConst off)
+       (GIfAbsent x (GConst off)
+          (GIfAbsent m (GConst off)
+             (GOrElse (GMap (mode_gate on off) (GAttr m (ad_attr md) (ad_codec md) (ad_kind md)))
+                      (GAttr x (ad_attr d) (ad_codec d) (ad_kind d)))))).
+
 Definition pre_id (v : aval) : res aval := Ok v.
 Definition post_id (v : pyval) : res pyval := Ok v.
 
